@@ -202,9 +202,11 @@ class Gen:
         scope_l = scope + [l[0] for l in locals_]
         if is_root and ports and rng.random() < 0.3:
             # a root port whose declared size is read in the root's own scope: a local variable, or a compound expression
-            k = rng.randrange(len(ports))
-            if ports[k]["size"] is not None or self.root_sized or True:
-                ports[k]["size"] = E.sym(locals_[0][0]) if locals_ and rng.random() < 0.6 else (gen_size_expr(rng, scope_l) if scope_l else ports[k]["size"])
+            # (never a port whose size symbol is itself in scope use: that symbol would lose its declaration)
+            free = [p for p in ports if p["size"] is None or p["size"][0] == "n" or (p["size"][0] == "s" and p["size"][1] in params)]
+            if free:
+                p = rng.choice(free)
+                p["size"] = E.sym(locals_[0][0]) if locals_ and rng.random() < 0.6 else (gen_size_expr(rng, scope_l) if scope_l else p["size"])
         # children and wiring
         n_children = 1 if is_rep else rng.randint(1, self.max_children)
         names = rng.sample(CHILD_NAMES, n_children)
